@@ -273,7 +273,9 @@ def set_default_doc(param, emit_default_doc=True):
                     if _param["doc"][-1] in frozenset((".", ","))
                     else "{doc}.".format(doc=_param["doc"])
                 ),
-                default=quote(_param["default"])
+                default='""'
+                if isinstance(_param["default"], str) and len(_param["default"]) == 0
+                else quote(_param["default"])
                 if needs_quoting(_param.get("typ"))
                 else _param["default"],
             )
